@@ -42,7 +42,7 @@ for (const [k, base, src] of [['mvNN', 'mv', 'mv!'], ['mvParen', 'mv', '(mv)'], 
 }
 const cellOf = (t) => TARGETS[t].cell || (t === 'ok' ? 'op' : t);
 const CELLS = ['mv', 'op', 'arr0']; // distinct storage cells (o.p and o[kk] are the same one)
-const ARGS = { none: {}, ns: { name: () => 'arg' }, arrStr: { arr: "'arg'", name: () => 'arg' }, arrDyn: { arr: 'dyn', name: (e) => e.bound.dyn, computed: true } };
+const ARGS = { none: {}, ns: { name: () => 'arg' }, arrStr: { arr: "'arg'", name: () => 'arg' }, arrStr2: { arr: "'second-name'", name: () => 'second-name' }, arrDyn: { arr: 'dyn', name: (e) => e.bound.dyn, computed: true } };
 const MODFORMS = { none: { mods: [] }, suffix1: { suffix: ['trim'], mods: ['trim'] }, suffix2: { suffix: ['a', 'b'], mods: ['a', 'b'] }, arr: { arr: ['trim'], mods: ['trim'] }, arr2: { arr: ['lazy', 'a-b'], mods: ['lazy', 'a-b'] } };
 
 function modelAttr(m) {
@@ -173,12 +173,13 @@ function* singles() {
 }
 
 function spaces(tier) {
-  const thorough = tier === 'thorough';
+  const thorough = true; // cheap: the quick tier explores the whole space too
   // v-models entries: distinct argument names so that the reference form has no repeated non-mergeable names
   const ENTRY = [
     { target: 'mv', arg: 'none', mod: 'none' }, { target: 'mv', arg: 'none', mod: 'arr' },
     { target: 'op', arg: 'arrStr', mod: 'none' }, { target: 'op', arg: 'arrStr', mod: 'arr' },
     { target: 'arr0', arg: 'arrDyn', mod: 'none' }, { target: 'arr0', arg: 'arrDyn', mod: 'arr2' },
+    { target: 'mv', arg: 'arrStr2', mod: 'none' }, { target: 'arr0', arg: 'arrStr2', mod: 'arr' },
     { target: 'mvParen', arg: 'none', mod: 'none' }, { target: 'opAs', arg: 'arrStr', mod: 'arr' }, { target: 'arr0ParenNN', arg: 'arrDyn', mod: 'none' },
   ];
   const argOf = (i) => ENTRY[i].arg;
@@ -190,9 +191,9 @@ function spaces(tier) {
     },
     {
       name: 'L:v-models',
-      bounds: { hosts: ['Comp', 'CompId', 'input', 'select', 'CompSpreadBefore', 'CompSpreadAfter', 'CompListenerBefore', 'inputSpreadBefore'], entries: ENTRY.map((m) => entrySrc(m)), max_length: 3, rule: 'entries with pairwise distinct argument names; differential against the same-order v-model attributes' },
+      bounds: { hosts: ['Comp', 'CompId', 'input', 'select', 'CompSpreadBefore', 'CompSpreadAfter', 'CompListenerBefore', 'inputSpreadBefore'], entries: ENTRY.map((m) => entrySrc(m)), max_length: thorough ? 4 : 3, rule: 'entries with pairwise distinct argument names; differential against the same-order v-model attributes' },
       *gen() {
-        for (const host of ['Comp', 'CompId', 'input', 'select', 'CompSpreadBefore', 'CompSpreadAfter', 'CompListenerBefore', 'inputSpreadBefore']) for (const seq of sequences(ENTRY.length, 3, { minLen: 1, ok: (idx, pos) => !idx.slice(0, pos).some((j) => argOf(j) === argOf(idx[pos])) })) {
+        for (const host of ['Comp', 'CompId', 'input', 'select', 'CompSpreadBefore', 'CompSpreadAfter', 'CompListenerBefore', 'inputSpreadBefore']) for (const seq of sequences(ENTRY.length, thorough ? 4 : 3, { minLen: 1, ok: (idx, pos) => !idx.slice(0, pos).some((j) => argOf(j) === argOf(idx[pos])) })) {
           for (const mp of [true, false]) for (const opt of thorough ? [false, true] : [false]) yield { sp: 'L', host, ms: seq.map((i) => ENTRY[i]), mp, opt };
         }
       },
